@@ -51,7 +51,8 @@ ASSUMPTIONS = {
     "C01": ["values are modelled only for the plain fragment (named struct, named counterpart, members mapped by default or by a rename without expression): O2oModel/Sem.lean reads `T { a: value.x, }` as 'a holds the value at x' and `other.x = self.n;` as a store; the C01_value_* theorems are about that reading. For expressions, casts, ghosts, tuple shapes and nesting the theorems show which tokens are emitted for which slot/source, and the runtime tie compiles and runs designed programs",
             "that rustc evaluates struct expressions and assignments as Sem.lean reads them is rustc's semantics, not proved"],
     "C02": ["as C01; `match` semantics (first matching arm) is rustc's"],
-    "C03": ["the once-construction theorem for arbitrary interleavings is not proved yet; the sort is proved a stable permutation ordered by group index"],
+    "C03": ["once-construction is proved for every tree of any depth whose nested structs are contiguous in the sorted member list (hypothesis NodeList.WF); that the sort yields such a tree exactly when sibling subtrees do not interleave is not proved (and interleaved subtrees are a known finding); the sort is proved a stable permutation ordered by group index",
+            "values of nested conversions are not modelled in Lean (Sem.lean covers flat structs only): the runtime tie compiles and runs designed trees"],
     "C07": ["agreement is proved as token identity of the member lines (any flavours of one direction) and, for Into vs IntoExisting, as equality of the values both leave at every designated member under the record semantics of O2oModel/Sem.lean (plain fragment); beyond that fragment agreement is syntactic (same plumbing tokens) plus the runtime tie"],
     "C09": ["pattern matching semantics is rustc's"],
     "C11": ["'type-checks' is rustc's judgement: the header construction is proved, acceptance by rustc is not modelled"],
